@@ -47,7 +47,7 @@ func c08FindRoles(c *Ctx, rule string) *c08Roles {
 		return nil
 	}
 	// the string field that holds the path of index.json, by what is assigned to it
-	for _, f := range c.P.FuncsOfPkg(c08Pkg) {
+	for _, f := range c09FuncsOfPkg(c.P, c08Pkg) {
 		AllInstrs(f, func(in ssa.Instruction) {
 			st, ok := in.(*ssa.Store)
 			if !ok {
@@ -74,10 +74,7 @@ func c08FindRoles(c *Ctx, rule string) *c08Roles {
 			return nil
 		}
 	}
-	for _, f := range c.P.FuncsOfPkg(c08Pkg) {
-		if f.Signature.Recv() == nil {
-			continue
-		}
+	for _, f := range c09FuncsOfPkg(c.P, c08Pkg) {
 		storesManifests, usesIndexPath := false, false
 		AllInstrs(f, func(in ssa.Instruction) {
 			switch u := in.(type) {
@@ -95,11 +92,45 @@ func c08FindRoles(c *Ctx, rule string) *c08Roles {
 				}
 			}
 		})
+		if !usesIndexPath {
+			// the path is a parameter (writeJSONFile(path, …)): judged by what the call sites pass
+			for _, call := range Calls(f, func(n string) bool { return c08FileWriters[n] }) {
+				for _, a := range call.Common().Args {
+					if pf, _ := c09ParamOf(a); pf != f {
+						continue
+					}
+					if os, ok := c09Origins(c.P, a, 2, nil); ok {
+						for _, o := range os {
+							if c08DerivesFromField(o, r.store, "indexPath") {
+								usesIndexPath = true
+							}
+						}
+					}
+				}
+			}
+		}
 		if usesIndexPath {
 			r.indexWriter[f] = true
 		}
-		if storesManifests && reachesCall(f, 2, func(n string, _ ssa.CallInstruction) bool { return c08FileWriters[n] }) {
+		if storesManifests && f.Signature.Recv() != nil && reachesCall(f, 3, func(n string, _ ssa.CallInstruction) bool { return c08FileWriters[n] }) {
 			r.savers[f] = true
+		}
+	}
+	// a function that hands the index path to an index writer is one too (writeIndexFile -> writeJSONFile)
+	for round := 0; round < 2; round++ {
+		for _, f := range c09FuncsOfPkg(c.P, c08Pkg) {
+			if r.indexWriter[f] {
+				continue
+			}
+			for _, call := range Calls(f, func(string) bool { return true }) {
+				if g := StaticCallee(call); g != nil && r.indexWriter[g] {
+					for _, a := range call.Common().Args {
+						if c08DerivesFromField(a, r.store, "indexPath") {
+							r.indexWriter[f] = true
+						}
+					}
+				}
+			}
 		}
 	}
 	if len(r.savers) == 0 {
@@ -114,8 +145,8 @@ func c08FindRoles(c *Ctx, rule string) *c08Roles {
 	// tag map inside, and every nil-error return has passed a successful save or the AutoSaveIndex==false edge
 	for changed := true; changed; {
 		changed = false
-		for _, f := range c.P.FuncsOfPkg(c08Pkg) {
-			if r.savers[f] || r.autoSavers[f] || r.indexWriter[f] || ErrResultIndex(f.Signature) < 0 || len(c08SaveCalls(f, r)) == 0 || len(c08Mutations(f, r)) > 0 {
+		for _, f := range c09FuncsOfPkg(c.P, c08Pkg) {
+			if c09IsYieldBody(f) || r.savers[f] || r.autoSavers[f] || r.indexWriter[f] || ErrResultIndex(f.Signature) < 0 || len(c08SaveCalls(f, r)) == 0 || len(c08Mutations(f, r)) > 0 {
 				continue
 			}
 			_, off := c08AutoSaveEdges(f, r.store)
@@ -260,6 +291,10 @@ func c08Mutations(fn *ssa.Function, r *c08Roles) []ssa.Instruction {
 			if g := StaticCallee(u); g != nil && r.dirty[g] {
 				out = append(out, in)
 			}
+			// a range-over-func loop whose body changes the tag map: the loop statement is the change
+			if _, body, isRF := c09RangeFuncCall(in); isRF && len(c08Mutations(body, r)) > 0 {
+				out = append(out, in)
+			}
 		}
 	})
 	return out
@@ -270,6 +305,9 @@ func c08MutationLabel(in ssa.Instruction) string {
 	case *ssa.Store:
 		return "s.tagResolver="
 	case ssa.CallInstruction:
+		if _, body, isRF := c09RangeFuncCall(in); isRF {
+			return "range-over-func:" + FnName(body)
+		}
 		return CalleeName(u)
 	}
 	return "?"
@@ -314,6 +352,37 @@ func c08InfeasibleAfter(M ssa.Instruction, r *c08Roles) []Edge {
 			out = append(out, f)
 		case bo.Op == token.EQL && k == 0, bo.Op == token.LSS && k == 1, bo.Op == token.LEQ && k == 0:
 			out = append(out, t)
+		}
+	}
+	// M is a range-over-func loop whose body changes the tag map
+	if seq, body, isRF := c09RangeFuncCall(M); isRF && r != nil {
+		// `changed := false; for … := range seq { mutate(); changed = true }; if changed …`
+		for _, i := range Ifs(fn) {
+			cond, _, f := ifEdges(i)
+			ld, ok := cond.(*ssa.UnOp)
+			if !ok || ld.Op != token.MUL {
+				continue
+			}
+			cell, ok := ld.X.(*ssa.Alloc)
+			if !ok || !c08BodySetsCell(body, cell, r) {
+				continue
+			}
+			clobbered := false
+			for _, st := range storesTo(cell) {
+				if Reachable(M, st) && Reachable(st, i) {
+					clobbered = true
+				}
+			}
+			if !clobbered && Reachable(M, i) {
+				out = append(out, f)
+			}
+		}
+		// the body ran, so the collection it ranges over is not empty: maps.Keys(m) / maps.All(m) / slices.Values(s)
+		if mk, isCall := c09Resolved(seq).(*ssa.Call); isCall && len(mk.Call.Args) == 1 {
+			switch CalleeName(mk) {
+			case "maps.Keys", "maps.Values", "maps.All", "slices.Values", "slices.All":
+				out = append(out, c08LenZeroEdges(fn, mk.Call.Args[0])...)
+			}
 		}
 	}
 	// M is a call of a helper that reports, in a bool result, whether it changed the
@@ -373,6 +442,45 @@ func c08BoolKnownAfter(M ssa.Instruction, v ssa.Value, use ssa.Instruction) (val
 		return false, false
 	}
 	return vals[true], true
+}
+
+// c08BodySetsCell: whenever the loop body (a range-over-func closure) changes
+// the tag map it sets the captured bool cell to true, and never to anything else.
+func c08BodySetsCell(body *ssa.Function, cell *ssa.Alloc, r *c08Roles) bool {
+	var fv *ssa.FreeVar
+	for _, f := range body.FreeVars {
+		for _, b := range freeVarBindings(f) {
+			if b == ssa.Value(cell) {
+				fv = f
+			}
+		}
+	}
+	if fv == nil {
+		return false
+	}
+	var trueStores []ssa.Instruction
+	bad := false
+	AllInstrs(body, func(in ssa.Instruction) {
+		if st, ok := in.(*ssa.Store); ok && st.Addr == ssa.Value(fv) {
+			if cst, isC := st.Val.(*ssa.Const); isC && cst.Value != nil && cst.Value.String() == "true" {
+				trueStores = append(trueStores, st)
+			} else {
+				bad = true
+			}
+		}
+	})
+	muts := c08Mutations(body, r)
+	if bad || len(trueStores) == 0 || len(muts) == 0 {
+		return false
+	}
+	for _, m := range muts {
+		for _, ret := range Returns(body) {
+			if reach(m.Block(), instrIndex(m)+1, ret, nil) && !MustPassBetween(m, ret, newCut().Instr(trueStores...)) {
+				return false
+			}
+		}
+	}
+	return true
 }
 
 // c08CounterPositiveAfter: v (tested at use) is a counter that starts at a
@@ -574,8 +682,8 @@ func c08Unsaved(f *ssa.Function, r *c08Roles) (ssa.Instruction, *ssa.Return) {
 func c08ComputeDirty(p *Prog, r *c08Roles) {
 	for changed := true; changed; {
 		changed = false
-		for _, f := range p.FuncsOfPkg(c08Pkg) {
-			if r.dirty[f] || r.savers[f] || f.Object() == nil || f.Object().Exported() {
+		for _, f := range c09FuncsOfPkg(p, c08Pkg) {
+			if c09IsYieldBody(f) || r.dirty[f] || r.savers[f] || f.Object() == nil || f.Object().Exported() {
 				continue
 			}
 			if m, _ := c08Unsaved(f, r); m != nil {
@@ -705,8 +813,8 @@ type c08Promise struct {
 // save, or a period with AutoSaveIndex off, may have left the file behind).
 func c08PersistPromises(p *Prog, r *c08Roles) (out []c08Promise, lost []string) {
 	helpers := map[*ssa.Function]bool{}
-	for _, f := range p.FuncsOfPkg(c08Pkg) {
-		if f.Signature.Recv() == nil || r.savers[f] {
+	for _, f := range c09FuncsOfPkg(p, c08Pkg) {
+		if c09IsYieldBody(f) || f.Signature.Recv() == nil || r.savers[f] {
 			continue
 		}
 		for _, m := range c08Mutations(f, r) {
